@@ -102,6 +102,21 @@ def build_family(g):
         Y = rng.integers(0, ky, size=n)
         dep = rng.random(n) < 0.3
         Y[dep] = (X[dep] * 7 + Y[dep] % 5) % ky      # some dependence on the target
+    elif fam == 'nearcopy':
+        # the feature is the target except on ky rows (a lightly edited copy): NOT a self pair
+        Y = X.copy()
+        rows = rng.choice(n, size=min(max(1, ky), n), replace=False)
+        Y[rows] = (X[rows] + 1 + rng.integers(0, max(kx, 2) - 1 + 1, size=len(rows))) % max(kx, 2)
+        same = Y[rows] == X[rows]
+        Y[rows[same]] = (X[rows[same]] + 1) % max(kx, 2)
+    elif fam == 'longtail':
+        # two frequent target values plus ky values that occur exactly twice each (each below 1e-5 of the rows for n > 200 000); the
+        # feature follows the target on the tail
+        tail = np.repeat(np.arange(2, 2 + ky), 2)
+        X = np.concatenate([rng.integers(0, 2, size=n - len(tail)), tail])
+        perm = rng.permutation(len(X))
+        X = X[perm]
+        Y = np.where(X >= 2, X % 7, rng.integers(0, 7, size=len(X)))
     elif fam == 'idpair':
         # both vectors id-like: X has ~6/7 n distinct values (all but ky of them singletons, ky frequent ones), Y tens of thousands of
         # values and a noisy copy of X on the frequent values - (#values of X) x (#values of Y) exceeds 2^31
@@ -163,6 +178,20 @@ def manystrata_pair(draw):
     """Tens of thousands of NON-singleton strata (ids seen 2-4 times, n 40 000 - 90 000): a running sum over strata has that many terms."""
     return {'gen': {'fam': 'manystrata', 'n': draw(st.integers(40_000, 90_000)), 'kx': draw(st.integers(2, 3)), 'ky': draw(st.integers(2, 4)),
                     'k': draw(st.integers(0, 2**32 - 1)), 'p': draw(st.sampled_from([0.0, 0.0, 0.5]))}, 'both': True}
+
+
+@st.composite
+def nearcopy_pair(draw):
+    """A feature that equals the target on all but 1-6 rows, n 2 048 - 20 000 (longer than any row-sampled comparison stride)."""
+    return {'gen': {'fam': 'nearcopy', 'n': draw(st.integers(2048, 20000)), 'kx': draw(st.sampled_from([2, 3, 50, 1000])), 'ky': draw(st.integers(1, 6)),
+                    'k': draw(st.integers(0, 2**32 - 1)), 'p': 0.0}}
+
+
+@st.composite
+def longtail_pair(draw):
+    """n 205 000 - 260 000 with thousands of target values that occur exactly twice (a long-tailed target on a few hundred thousand rows)."""
+    return {'gen': {'fam': 'longtail', 'n': draw(st.integers(205_000, 260_000)), 'kx': 2, 'ky': draw(st.integers(3000, 7000)),
+                    'k': draw(st.integers(0, 2**32 - 1)), 'p': 0.0}}
 
 
 @st.composite
